@@ -671,7 +671,40 @@ func estLines(n *node, width int) int {
 		}
 		return total
 	}
-	return greedyLines(wordLens(plainText(n)), width)
+	// inline content: a display:block / inline-block child starts and ends a line (upper bound)
+	total, cur := 0, ""
+	flush := func() {
+		total += greedyLines(wordLens(cur), width)
+		cur = ""
+	}
+	cur = strings.ReplaceAll(n.before, pagesMark, "00")
+	for _, k := range n.kids {
+		if k.tag != "" && lineBreaker(k) {
+			flush()
+			total += estLines(k, width)
+			continue
+		}
+		cur += plainText(k)
+	}
+	cur += n.after
+	flush()
+	return total
+}
+
+// columnLines is the smallest height (in lines) of two columns holding n lines when the first
+// column needs at least orphans lines and the second at least widows lines (or nothing).
+func columnLines(n, orphans, widows int) int {
+	best := n
+	for k := orphans; n-k >= widows; k++ {
+		h := k
+		if n-k > h {
+			h = n - k
+		}
+		if h < best {
+			best = h
+		}
+	}
+	return best
 }
 
 // generatedLines: upper bound of the lines the generated content of a subtree adds.
@@ -692,14 +725,17 @@ func generatedLines(n *node) int {
 	return c
 }
 
+// plainText: the text of a subtree, generated text included (a counter(pages) value: two digits).
 func plainText(n *node) string {
 	if n.tag == "" {
 		return n.text
 	}
 	var sb strings.Builder
+	sb.WriteString(strings.ReplaceAll(n.before, pagesMark, "00"))
 	for _, k := range n.kids {
 		sb.WriteString(plainText(k))
 	}
+	sb.WriteString(n.after)
 	return sb.String()
 }
 
@@ -758,7 +794,8 @@ func (d *docSpec) features(c pageCfg) []string {
 		for i, n := range tr {
 			if d.Blocks[i].Kind == kNote {
 				if fn := n.find(n.id + "1"); fn != nil {
-					pageH -= estLines(fn, d.W)*10 + 5
+					// the footnote body starts with its marker "1. "
+					pageH -= greedyLines(append([]int{2}, wordLens(plainText(fn))...), d.W)*10 + 5
 				}
 			}
 		}
@@ -777,7 +814,9 @@ func (d *docSpec) features(c pageCfg) []string {
 			if d.slotHas(i, "columns") && eff != "running" {
 				colLines := estLines(n, (w-10)/2)
 				hgt = (colLines+1)/2*10 + d.extraHeight(i)
-				if hgt > pageH || total+hgt > pageH {
+				// orphans and widows restrict where the lines can be split between the two columns
+				constrained := columnLines(colLines, c.Orphans, c.Widows)*10 + d.extraHeight(i)
+				if constrained > pageH || total+constrained > pageH {
 					set["page-break-in-columns"] = true
 				}
 				if eff != "" {
@@ -796,15 +835,23 @@ func (d *docSpec) features(c pageCfg) []string {
 				set[eff+"-overflows-page"] = true
 			}
 			innerSlack := 0
-			if d.slotHas(i, "in-inline-block") {
-				innerSlack = 2 // the line box of an inline-block cell is 11px high
+			if d.slotHas(i, "in-inline-block") || d.slotHas(i, "in-relative") {
+				innerSlack = 2 // the line box of an inline-block cell is 11px high; a shifted float makes its row 12px high
 			}
-			if in := n.find(n.id + "1"); in != nil && in.tag != "td" && eff == "" {
-				// an inner float / absolutely positioned box of several lines inside a block that does not
-				// fit the rest of the first page may be broken: the region of the top level boxes extends to it
-				if k := oofKind(in.style); (k == "float" || k == "absolute") && estLines(in, w) > 1 && (hgt > pageH || total+hgt+oofSlack > pageH) {
-					set[k] = true
-					set[k+"-overflows-page"] = true
+			if in := n.find(n.id + "1"); in != nil && in.tag != "td" && eff != "running" {
+				// an inner float / absolutely positioned box of several lines may be broken when it does not
+				// fit between its static position (a line of the block) and the bottom of the first page: the
+				// regions of the top level boxes extend to it. It is shrunk to fit at its static position:
+				// at worst one word per line.
+				if k := oofKind(in.style); k == "float" || k == "absolute" {
+					ih := len(wordLens(plainText(in))) * 10
+					if ih > 10 && (hgt > pageH || total+hgt+oofSlack > pageH || total+hgt-10+ih+oofSlack > pageH) {
+						if eff != "" {
+							k = eff // the site of a flow nested in an out-of-flow block is the kind of that block
+						}
+						set[k] = true
+						set[k+"-overflows-page"] = true
+					}
 				}
 			}
 			if n.tag == "table" && eff != "running" && tableCrowdsPage(n, w, pageH-d.extraHeight(i)-innerSlack) {
@@ -812,6 +859,9 @@ func (d *docSpec) features(c pageCfg) []string {
 			}
 			if eff == "running" && d.slotHas(i, "inline-block") {
 				total += 10 // the line box that held the inline-level running element may stay in the flow
+			}
+			if eff == "float" && d.W-w < 20 {
+				total += hgt // no room for a word beside the float: the in-flow content goes below it
 			}
 			if eff == "" {
 				total += hgt
